@@ -225,58 +225,58 @@ proof fn lemma_idx(i: int, j: int, h: int, w: int)
             assert forall|i: int, j: int| 0 <= i < hh && 0 <= j < ww implies 0 <= #[trigger] (i * ww + j) < hh * ww by { lemma_idx(i, j, hh, ww); }
         }
 //@@ end
-//@@ fn src/lib.rs Range::empty props=C05 ret=r
+//@@ fn src/lib.rs Range::empty props=C05,C01,C02,C03,C04 ret=r
 //@@ sig
     ensures
-        //# C05.empty_wf
+        //# C05,C01,C02,C03,C04.empty_wf
         r.wf(),
-        //# C05.empty_is_empty
+        //# C05,C01,C02,C03,C04.empty_is_empty
         !r.nonempty(),
 //@@ end
 //@@ fn src/lib.rs Range::is_empty props=C05,C01,C02,C03,C04 ret=r
 //@@ sig
     ensures
-        //# C05.is_empty
+        //# C05,C01,C02,C03,C04.is_empty
         r == !self.nonempty(),
 //@@ end
 //@@ fn src/lib.rs Range::start props=C05,C01,C02,C03,C04 ret=r
 //@@ sig
     ensures
-        //# C05.start
+        //# C05,C01,C02,C03,C04.start
         r == (if self.nonempty() { Some(self.lo()) } else { None }),
 //@@ end
 //@@ fn src/lib.rs Range::end props=C05,C01,C02,C03,C04 ret=r
 //@@ sig
     ensures
-        //# C05.end
+        //# C05,C01,C02,C03,C04.end
         r == (if self.nonempty() { Some(self.hi()) } else { None }),
 //@@ end
 //@@ fn src/lib.rs Range::width props=C05,C01,C02,C03,C04 ret=r
 //@@ sig
     requires self.spans_ok(),
     ensures
-        //# C05.width
+        //# C05,C01,C02,C03,C04.width
         r == self.sw(),
 //@@ end
 //@@ fn src/lib.rs Range::height props=C05,C01,C02,C03,C04 ret=r
 //@@ sig
     requires self.spans_ok(),
     ensures
-        //# C05.height
+        //# C05,C01,C02,C03,C04.height
         r == self.sh(),
 //@@ end
 //@@ fn src/lib.rs Range::get_size props=C05,C01,C02,C03,C04 ret=r
 //@@ sig
     requires self.spans_ok(),
     ensures
-        //# C05.get_size
+        //# C05,C01,C02,C03,C04.get_size
         r.0 == self.sh() && r.1 == self.sw(),
 //@@ end
 //@@ fn src/lib.rs Range::get props=C05,C01,C02,C03,C04 ret=r
 //@@ sig
     requires self.wf(),
     ensures
-        //# C05.get
+        //# C05,C01,C02,C03,C04.get
         r == (if relative_position.0 < self.sh() && relative_position.1 < self.sw() {
                 Some(&self.at(self.lo().0 + relative_position.0, self.lo().1 + relative_position.1)) } else { None }),
 //@@ before /self\.inner\.get\(/
@@ -494,33 +494,33 @@ proof fn lemma_idx(i: int, j: int, h: int, w: int)
 //@@ sig
     requires self.wf(),
     ensures
-        //# C05.get_value
+        //# C05,C01,C02,C03,C04.get_value
         r == (if self.has(absolute_position.0 as int, absolute_position.1 as int) {
                 Some(&self.at(absolute_position.0 as int, absolute_position.1 as int)) } else { None }),
 //@@ end
-//@@ fn src/lib.rs Range::rows props=C05 ret=r
+//@@ fn src/lib.rs Range::rows props=C05,C01,C02,C03,C04 ret=r
 //@@ sig
     requires self.wf(),
     ensures
-        //# C05.rows_start_with_all_rows
+        //# C05,C01,C02,C03,C04.rows_start_with_all_rows
         r.is_window(*self, 0, self.sh()),
 //@@ body
         proof { self.lemma_rows_window(0, self.sh()); assert(self.buf().subrange(0, self.sh() * self.sw()) =~= self.buf()); assert(0 * self.sw() == 0); if !self.nonempty() { assert(self.buf() =~= Seq::<T>::empty()); } }
 //@@ end
-//@@ fn src/lib.rs Range::used_cells props=C05 ret=r
+//@@ fn src/lib.rs Range::used_cells props=C05,C01,C02,C03,C04 ret=r
 //@@ sig
     requires self.wf(),
     ensures
-        //# C05.used_cells_start_with_all_cells
+        //# C05,C01,C02,C03,C04.used_cells_start_with_all_cells
         r.is_window(*self, 0, self.buf().len() as int) && r.winv(),
 //@@ replace /self\.inner\.iter\(\)\.enumerate\(\)/ Verus cannot attach a specification to the provided trait method Iterator::enumerate; the expression is moved verbatim into the trusted wrapper verif_iter_enumerate
 verif_iter_enumerate(&self.inner)
 //@@ end
-//@@ fn src/lib.rs Range::cells props=C05 ret=r
+//@@ fn src/lib.rs Range::cells props=C05,C01,C02,C03,C04 ret=r
 //@@ sig
     requires self.wf(),
     ensures
-        //# C05.cells_start_with_all_cells
+        //# C05,C01,C02,C03,C04.cells_start_with_all_cells
         r.is_window(*self, 0, self.buf().len() as int) && r.winv(),
 //@@ replace /self\.inner\.iter\(\)\.enumerate\(\)/ Verus cannot attach a specification to the provided trait method Iterator::enumerate; the expression is moved verbatim into the trusted wrapper verif_iter_enumerate
 verif_iter_enumerate(&self.inner)
@@ -619,22 +619,22 @@ verif_iter_enumerate(&self.inner)
 //@@ endimpl
 
 //@@ impl src/lib.rs Cell
-//@@ fn src/lib.rs Cell::new props=C05 ret=r
+//@@ fn src/lib.rs Cell::new props=C05,C01,C02,C03,C04 ret=r
 //@@ sig
     ensures
-        //# C05.cell_new
+        //# C05,C01,C02,C03,C04.cell_new
         r.p() == position && r.v() == value,
 //@@ end
-//@@ fn src/lib.rs Cell::get_position props=C05 ret=r
+//@@ fn src/lib.rs Cell::get_position props=C05,C01,C02,C03,C04 ret=r
 //@@ sig
     ensures
-        //# C05.cell_pos
+        //# C05,C01,C02,C03,C04.cell_pos
         r == self.p(),
 //@@ end
-//@@ fn src/lib.rs Cell::get_value props=C05 ret=r
+//@@ fn src/lib.rs Cell::get_value props=C05,C01,C02,C03,C04 ret=r
 //@@ sig
     ensures
-        //# C05.cell_val
+        //# C05,C01,C02,C03,C04.cell_val
         *r == self.v(),
 //@@ end
 //@@ endimpl
@@ -674,10 +674,10 @@ impl<T: CellType> Range<T> {
 //@@ item src/lib.rs impl_type "Index<usize> for Range<T>::type Output"
     /// documented: indexing a row beyond the height panics (slice index out of range)
     open spec fn index_pre(&self, index: usize) -> bool { self.wf() && index < self.sh() }
-//@@ fn src/lib.rs "Index<usize> for Range<T>::index" props=C05 ret=r
+//@@ fn src/lib.rs "Index<usize> for Range<T>::index" props=C05,C01,C02,C03,C04 ret=r
 //@@ sig
     ensures
-        //# C05.index_row
+        //# C05,C01,C02,C03,C04.index_row
         r@ == self.row(index as int),
 //@@ body
         proof { self.lemma_row(index as int); self.lemma_len_bound(); }
@@ -687,10 +687,10 @@ impl<T: CellType> Range<T> {
 //@@ item src/lib.rs impl_type "Index<(usize,usize)> for Range<T>::type Output"
     /// documented: "index out of bounds" panic unless row < height and column < width
     open spec fn index_pre(&self, index: (usize, usize)) -> bool { self.wf() && index.0 < self.sh() && index.1 < self.sw() }
-//@@ fn src/lib.rs "Index<(usize,usize)> for Range<T>::index" props=C05 ret=r
+//@@ fn src/lib.rs "Index<(usize,usize)> for Range<T>::index" props=C05,C01,C02,C03,C04 ret=r
 //@@ sig
     ensures
-        //# C05.index_cell
+        //# C05,C01,C02,C03,C04.index_cell
         *r == self.at(self.lo().0 + index.0, self.lo().1 + index.1),
 //@@ before /&self\.inner\[/
         proof { lemma_idx(index.0 as int, index.1 as int, height as int, width as int); self.lemma_len_bound(); }
@@ -907,10 +907,10 @@ pub mod iters {
 //@@ impl src/lib.rs "Iterator for Rows<'a,T>"
 //@@ item src/lib.rs impl_type "Iterator for Rows<'a,T>::type Item"
     open spec fn inv(&self) -> bool { true }
-//@@ fn src/lib.rs "Iterator for Rows<'a,T>::next" props=C05 ret=r
+//@@ fn src/lib.rs "Iterator for Rows<'a,T>::next" props=C05,C01,C02,C03,C04 ret=r
 //@@ sig
     ensures
-        //# C05.rows_are_the_width_chunks
+        //# C05,C01,C02,C03,C04.rows_are_the_width_chunks
         forall|rg: Range<T>, f: int, b: int| rg.wf() && 0 <= f <= b <= rg.sh() && #[trigger] old(self).is_window(rg, f, b) ==>
             (if f < b { r is Some && r.unwrap()@ == rg.row(f) && final(self).is_window(rg, f + 1, b) } else { r is None && final(self).is_window(rg, f, b) }),
 //@@ body
@@ -925,10 +925,10 @@ pub mod iters {
 //@@ end
 //@@ endimpl
 //@@ impl src/lib.rs "DoubleEndedIterator for Rows<'a,T>"
-//@@ fn src/lib.rs "DoubleEndedIterator for Rows<'a,T>::next_back" props=C05 ret=r
+//@@ fn src/lib.rs "DoubleEndedIterator for Rows<'a,T>::next_back" props=C05,C01,C02,C03,C04 ret=r
 //@@ sig
     ensures
-        //# C05.rows_back_are_the_width_chunks
+        //# C05,C01,C02,C03,C04.rows_back_are_the_width_chunks
         forall|rg: Range<T>, f: int, b: int| rg.wf() && 0 <= f <= b <= rg.sh() && #[trigger] old(self).is_window(rg, f, b) ==>
             (if f < b { r is Some && r.unwrap()@ == rg.row(b - 1) && final(self).is_window(rg, f, b - 1) } else { r is None && final(self).is_window(rg, f, b) }),
 //@@ body
@@ -947,10 +947,10 @@ pub mod iters {
 //@@ impl src/lib.rs "Iterator for Cells<'a,T>"
 //@@ item src/lib.rs impl_type "Iterator for Cells<'a,T>::type Item"
     open spec fn inv(&self) -> bool { self.winv() }
-//@@ fn src/lib.rs "Iterator for Cells<'a,T>::next" props=C05 ret=r
+//@@ fn src/lib.rs "Iterator for Cells<'a,T>::next" props=C05,C01,C02,C03,C04 ret=r
 //@@ sig
     ensures
-        //# C05.cells_row_major
+        //# C05,C01,C02,C03,C04.cells_row_major
         forall|rg: Range<T>, f: int, b: int| rg.wf() && 0 <= f <= b <= rg.buf().len() && #[trigger] old(self).is_window(rg, f, b) ==>
             (if f < b {
                 r is Some && r.unwrap().0 == f / rg.sw() && r.unwrap().1 == f % rg.sw()
@@ -972,10 +972,10 @@ pub mod iters {
 //@@ endimpl
 
 //@@ impl src/lib.rs "DoubleEndedIterator for Cells<'a,T>"
-//@@ fn src/lib.rs "DoubleEndedIterator for Cells<'a,T>::next_back" props=C05 ret=r
+//@@ fn src/lib.rs "DoubleEndedIterator for Cells<'a,T>::next_back" props=C05,C01,C02,C03,C04 ret=r
 //@@ sig
     ensures
-        //# C05.cells_row_major_from_the_back
+        //# C05,C01,C02,C03,C04.cells_row_major_from_the_back
         forall|rg: Range<T>, f: int, b: int| rg.wf() && 0 <= f <= b <= rg.buf().len() && #[trigger] old(self).is_window(rg, f, b) ==>
             (if f < b {
                 r is Some && r.unwrap().0 == (b - 1) / rg.sw() && r.unwrap().1 == (b - 1) % rg.sw()
@@ -998,10 +998,10 @@ pub mod iters {
 //@@ impl src/lib.rs "Iterator for UsedCells<'a,T>"
 //@@ item src/lib.rs impl_type "Iterator for UsedCells<'a,T>::type Item"
     open spec fn inv(&self) -> bool { self.winv() }
-//@@ fn src/lib.rs "Iterator for UsedCells<'a,T>::next" props=C05 ret=r
+//@@ fn src/lib.rs "Iterator for UsedCells<'a,T>::next" props=C05,C01,C02,C03,C04 ret=r
 //@@ sig
     ensures
-        //# C05.used_cells_are_the_non_default_cells_in_order
+        //# C05,C01,C02,C03,C04.used_cells_are_the_non_default_cells_in_order
         lawful::<T>() && lawful_eq::<T>() ==> forall|rg: Range<T>, f: int, b: int| rg.wf() && 0 <= f <= b <= rg.buf().len() && #[trigger] old(self).is_window(rg, f, b) ==>
             (match r {
                 // the next used cell is the first non-default cell at or after position f ...
@@ -1040,10 +1040,10 @@ verif_enum_\g<1>(&mut self.inner,
 //@@ end
 //@@ endimpl
 //@@ impl src/lib.rs "DoubleEndedIterator for UsedCells<'a,T>"
-//@@ fn src/lib.rs "DoubleEndedIterator for UsedCells<'a,T>::next_back" props=C05 ret=r
+//@@ fn src/lib.rs "DoubleEndedIterator for UsedCells<'a,T>::next_back" props=C05,C01,C02,C03,C04 ret=r
 //@@ sig
     ensures
-        //# C05.used_cells_from_the_back_are_the_non_default_cells_in_reverse_order
+        //# C05,C01,C02,C03,C04.used_cells_from_the_back_are_the_non_default_cells_in_reverse_order
         lawful::<T>() && lawful_eq::<T>() ==> forall|rg: Range<T>, f: int, b: int| rg.wf() && 0 <= f <= b <= rg.buf().len() && #[trigger] old(self).is_window(rg, f, b) ==>
             (match r {
                 // the next used cell from the back is the last non-default cell before position b ...
